@@ -323,7 +323,9 @@ class Check:
         self.violations.append((summary, replay, no_input))
 
     def finish(self):
-        os.makedirs(f"{VERIF}/evidence", exist_ok=True)
+        # development aid (seeded-change evaluation): keep runs against a patched /repo away from the committed evidence
+        evdir = os.environ.get("VERIF_EVIDENCE_DIR", f"{VERIF}/evidence")
+        os.makedirs(evdir, exist_ok=True)
         os.makedirs(f"{VERIF}/replays", exist_ok=True)
         wall = time.time() - self.t0
         vio_lines = []
@@ -366,7 +368,7 @@ class Check:
             "wall_s": round(wall, 2),
             "violations": len(self.violations),
         }
-        with open(f"{VERIF}/evidence/{self.pid}.json", "w") as f:
+        with open(f"{evdir}/{self.pid}.json", "w") as f:
             json.dump(ev, f, indent=1, ensure_ascii=False)
         for k in self.known:
             print(f"KNOWN-FINDING: property={self.pid} {k}")
